@@ -17,7 +17,7 @@ import (
 func TestC14(t *testing.T) {
 	simkit.Main(t, "C14", components, func(r *simkit.Run) {
 		only := simkit.Only()
-		mode := rapid.SampledFrom([]string{"rate-projection", "rate-projection", "rate-eviction", "rate-eviction", "rate-eviction-lru", "rate-eviction-lru", "conn-twin", "conn-fine"}).Draw(r.T, "mode")
+		mode := rapid.SampledFrom([]string{"rate-projection", "rate-projection", "rate-eviction", "rate-eviction", "rate-eviction-lru", "rate-eviction-lru", "rate-eviction-hetero", "conn-twin", "conn-fine"}).Draw(r.T, "mode")
 		if only != "" {
 			mode = only
 		}
@@ -28,6 +28,8 @@ func TestC14(t *testing.T) {
 			c14eviction(r)
 		case "rate-eviction-lru":
 			c14evictionLRU(r)
+		case "rate-eviction-hetero":
+			c14evictionHetero(r)
 		case "conn-twin":
 			c14connTwin(r)
 		default:
@@ -41,6 +43,7 @@ func TestC14(t *testing.T) {
 // at the same instants: answers must be identical.
 func c14projection(r *simkit.Run) {
 	rt := r.T
+	guardRun = r
 	rates := drawRates(rt, true, int64(rapid.SampledFrom([]int{3, 20, 300}).Draw(rt, "avg-scale")))
 	drawRateSource(rt)
 	nsrc := rapid.IntRange(2, 6).Draw(rt, "sources")
@@ -59,11 +62,47 @@ func c14projection(r *simkit.Run) {
 	nops := rapid.IntRange(10, 250).Draw(rt, "ops")
 	interleaved, rejected := 0, 0
 	last := -1
+	sim := simrt.New(r.Chooser())
+	defer sim.Shutdown()
+	sim.Fine = true
+	concurrent := 0
 	for i := 0; i < nops; i++ {
 		if rapid.IntRange(0, 2).Draw(rt, "adv") == 0 {
 			d := drawStep(rt, rates, "dt")
 			clock.Advance(d)
 			r.SimTime(d)
+		}
+		if rapid.IntRange(0, 9).Draw(rt, "concurrent") == 0 {
+			// requests of DIFFERENT sources in flight at one instant on the shared limiter, interleaved at every lock
+			// operation; each source's twin then sees its request alone: the answers must agree whatever the interleaving
+			k := rapid.IntRange(2, nsrc).Draw(rt, "conc-k")
+			srcs := rapid.Permutation(seq(nsrc)).Draw(rt, "conc-srcs")[:k]
+			res := make([]tlResult, k)
+			for j, s2 := range srcs {
+				j, s2 := j, s2
+				sim.Spawn(fmt.Sprintf("conc-s%d", s2), func() { res[j] = A.do(srcName(s2), 1) })
+			}
+			sim.Quiesce()
+			if sim.Deadlocked() {
+				r.Fail("deadlock", "concurrent requests on the rate limiter deadlocked")
+			}
+			for _, tk := range sim.Tasks() {
+				if tk.Panic != nil {
+					r.Fail("panic", "concurrent request panicked: %v\n%s", tk.Panic, tk.PanicSite)
+				}
+			}
+			concurrent++
+			for j, s2 := range srcs {
+				rb := B[s2].do(srcName(s2), 1)
+				h.Int(int64(s2))
+				h.Int(int64(res[j].status))
+				if !res[j].same(rb) {
+					r.Tracef("trace: %v", trace)
+					r.Fail("interference", "t=%v source s%d, one of %d sources arriving at once: shared limiter answered %d retry=%q, the same source alone answered %d retry=%q (rates %v)",
+						clock.Now().Sub(start), s2, k, res[j].status, res[j].retryHdr, rb.status, rb.retryHdr, rates)
+				}
+			}
+			continue
 		}
 		src := rapid.IntRange(0, nsrc-1).Draw(rt, "src")
 		amount := int64(1)
@@ -107,6 +146,7 @@ func c14projection(r *simkit.Run) {
 		r.Nontrivial()
 	}
 	r.Probe("rate-projection")
+	r.ProbeN("concurrent-arrivals-of-different-sources", concurrent)
 	r.Sample(func() any {
 		return map[string]any{"mode": "rate-projection", "rates": fmt.Sprint(rates), "sources": nsrc, "capacity": capacity, "first_ops": trace}
 	})
@@ -117,6 +157,7 @@ func c14projection(r *simkit.Run) {
 // creation and in last-use order) starts afresh, nobody else changes.
 func c14eviction(r *simkit.Run) {
 	rt := r.T
+	guardRun = r
 	capacity := rapid.IntRange(1, 4).Draw(rt, "capacity")
 	nsrc := capacity + rapid.IntRange(1, 2*capacity).Draw(rt, "extra-sources")
 	// long periods: the whole scenario stays far below any entry lifetime
@@ -236,6 +277,7 @@ func c14eviction(r *simkit.Run) {
 // and to a limiter B_s that only ever sees source s; admissions must agree.
 func c14connTwin(r *simkit.Run) {
 	rt := r.T
+	guardRun = r
 	nsrc := rapid.IntRange(2, 4).Draw(rt, "sources")
 	limit := rapid.IntRange(0, 4).Draw(rt, "limit")
 	sim := simrt.New(r.Chooser())
@@ -349,6 +391,7 @@ func c14connTwin(r *simkit.Run) {
 // alike, so the model needs no knowledge of the lifetime itself.
 func c14evictionLRU(r *simkit.Run) {
 	rt := r.T
+	guardRun = r
 	capacity := rapid.IntRange(1, 4).Draw(rt, "capacity")
 	nsrc := capacity + rapid.IntRange(1, 2*capacity).Draw(rt, "extra-sources")
 	var rates []rateSpec
@@ -435,5 +478,89 @@ func c14evictionLRU(r *simkit.Run) {
 	r.Probe("rate-eviction-lru")
 	r.Sample(func() any {
 		return map[string]any{"mode": "rate-eviction-lru", "rates": fmt.Sprint(rates), "sources": nsrc, "capacity": capacity, "evictions": evictions, "first_ops": trace}
+	})
+}
+
+func seq(n int) []int {
+	out := make([]int, n)
+	for i := range out {
+		out[i] = i
+	}
+	return out
+}
+
+// Sources with different rate sets (hence different entry lifetimes) over
+// capacity. Which of the tracked sources is nearest to expiry then depends on
+// the lifetime formula, which the oracle does not know; what it does know is
+// that the source that has just arrived is not a tracked source yet and so is
+// never the one forgotten: from its first request on it is limited exactly as
+// it would be alone.
+func c14evictionHetero(r *simkit.Run) {
+	rt := r.T
+	guardRun = r
+	capacity := rapid.IntRange(1, 3).Draw(rt, "capacity")
+	nsrc := capacity + rapid.IntRange(1, 8).Draw(rt, "extra-sources")
+	periods := []time.Duration{time.Second, 10 * time.Second, time.Minute, time.Hour}
+	ps := map[string][]rateSpec{}
+	for s2 := 0; s2 < nsrc; s2++ {
+		avg := int64(rapid.IntRange(1, 3).Draw(rt, "average"))
+		ps[srcName(s2)] = []rateSpec{{rapid.SampledFrom(periods).Draw(rt, "period"), avg, int64(rapid.IntRange(1, int(3*avg)).Draw(rt, "burst"))}}
+	}
+	_, unfreeze := freeze(rt)
+	defer unfreeze()
+	start := clock.Now()
+	perSourceRates = ps
+	defer func() { perSourceRates = nil }()
+	def := []rateSpec{{time.Second, 1, 1}}
+	A := newTLim(rt, def, capacity)
+	h := simkit.NewHash()
+	var trace []string
+	newcomers := 0
+	tracked := map[int]bool{}
+	nops := rapid.IntRange(3, 30).Draw(rt, "ops")
+	for i := 0; i < nops; i++ {
+		d := time.Second + time.Duration(rapid.Int64Range(0, int64(3*time.Second)).Draw(rt, "dt"))
+		clock.Advance(d)
+		r.SimTime(d)
+		s2 := rapid.IntRange(0, nsrc-1).Draw(rt, "src")
+		if tracked[s2] {
+			// seen before: whether it is still tracked depends on lifetimes the oracle does not know; keep it drained, no oracle
+			for k := 0; k < 12 && A.do(srcName(s2), 1).class() == ansAdmit; k++ {
+			}
+			continue
+		}
+		// a source never seen before: alone it would get exactly its burst at this instant, then be refused -
+		// also (and especially) when the limiter is full and somebody has to be forgotten for it
+		tracked[s2] = true
+		if len(tracked) > capacity {
+			newcomers++
+		}
+		alone := newTLim(rt, def, 1)
+		for k := 0; k < 12; k++ {
+			ra := A.do(srcName(s2), 1)
+			rb := alone.do(srcName(s2), 1)
+			if len(trace) < 100 {
+				trace = append(trace, fmt.Sprintf("t=%v newcomer s%d -> %d", clock.Now().Sub(start), s2, ra.status))
+			}
+			h.Int(int64(s2))
+			h.Int(int64(ra.status))
+			if !ra.same(rb) {
+				r.Tracef("trace: %v (rates per source %v)", trace, ps)
+				r.Fail("newcomer-forgotten", "t=%v source s%d arrives at a full limiter (capacity %d): request %d answered %d retry=%q, alone it is answered %d retry=%q - the arriving source itself was forgotten (its rate %v, others %v)",
+					clock.Now().Sub(start), s2, capacity, k+1, ra.status, ra.retryHdr, rb.status, rb.retryHdr, ps[srcName(s2)], ps)
+			}
+			if ra.class() != ansAdmit {
+				break
+			}
+		}
+	}
+	r.SetDigest(uint64(h))
+	if newcomers >= 1 {
+		r.Nontrivial()
+	}
+	r.ProbeN("newcomer-into-full-limiter", newcomers)
+	r.Probe("rate-eviction-hetero")
+	r.Sample(func() any {
+		return map[string]any{"mode": "rate-eviction-hetero", "rates_per_source": fmt.Sprint(ps), "capacity": capacity, "first_ops": trace}
 	})
 }
